@@ -58,9 +58,13 @@ macro_rules! leaf_total {
                 i += 1;
             }
             arr[0] = $kind as u8;
-            let depth: u8 = kani::any();
-            kani::assume(depth < 32);
-            $( check_leaf_prefix($kind, &arr[..$l], depth); )*
+            // concrete start depths (a symbolic depth defeats CBMC's constant propagation, see
+            // shape_common::boundary_depths): top level and the deepest legal position
+            $(
+                check_leaf_prefix($kind, &arr[..$l], 0);
+            )*
+            // the complete value once more at the deepest legal position
+            check_leaf_prefix($kind, &arr[..], 31);
         }
     };
 }
